@@ -1,8 +1,8 @@
 HOOKS = dict(
     guard="verif-trace",
-    enable="cargo test -p cedar-policy-core -p cedar-policy --lib --features verif-trace with CEDAR_VERIF_TRACE=<prefix> (done by the thorough tier of C01 and C04, which validate the recorded store and authorizer events with Trace_StoreHook.tla / Trace_AuthzHook.tla)",
+    enable="cargo test -p cedar-policy-core -p cedar-policy --lib --features verif-trace with CEDAR_VERIF_TRACE=<prefix> (the conformance harness itself links cedar-policy-core with the feature: C04 runs a random store driver with CEDAR_VERIF_TRACE set in both tiers and validates the recorded stage before repair_tc and the touched set with Trace_StoreHook.tla / EntityStoreRepair.tla; the repository tests run under the hooks in the thorough tier of C01 and C04, which validate the recorded store and authorizer events with Trace_StoreHook.tla / Trace_AuthzHook.tla)",
     baseline_off_cmd="cd /repo && cargo nextest run --workspace --no-fail-fast --test-threads 8 --offline || cargo test --workspace --no-fail-fast --offline",
-    source_commits=["c7e2586"],
+    source_commits=["c7e2586", "ebb1a85", "b8bf9b0"],
     add_only=True,
 )
 ENGINES = [
